@@ -1974,6 +1974,13 @@ class Engine:
         if name in BUILTIN_MODELS:
             self.used_externals.add(name)
             return BUILTIN_MODELS[name](self, args, node)
+        fn = self.tu.functions.get(name)
+        if fn is not None and fn.get("storageClass") == "static" and not any(f.fname == name for f in self.frames):
+            # a static helper of the same translation unit without a contract of its own (typically split off by a refactoring): its body is
+            # interpreted in place, as if it had been listed in Contract.inline - sound (the real text is executed), noted in the evidence
+            self.used_inline.add(name)
+            self.notes.add("static helper %s() has no contract of its own: interpreted from its body (inlined automatically)" % name)
+            return self.call_function(name, args, node)
         raise Unsupported("call of %s: no contract, not marked inline, no external model (%s)" % (name, self.where(node)))
 
 
